@@ -23,6 +23,7 @@ function li(v){if(typeof v!=="number")return "T"+typeof v;if(v!==v)return "nan";
 function it(x){return x===undefined?"U":"="+hx(String(x))}
 function res(v){if(v===null)return "null";if(v===undefined)return "undef";if(v===true)return "true";if(v===false)return "false";if(typeof v==="number")return "n"+String(v);if(typeof v==="string")return "s"+hx(v);if(v instanceof Array){var o=[];for(var i=0;i<v.length;i++)o.push(it(v[i]));return "A"+(v.hasOwnProperty("index")?String(v.index):"")+":"+o.join(",")}return "other"}
 function okTok(r){var t=String(r);return "ok:"+hx(r.source)+":"+t.slice(t.lastIndexOf("/")+1)}
+function T(){var a=[];for(var i=0;i<arguments.length;i++)a.push(typeof arguments[i]);return "<"+a.join(",")+"|"+(arguments[arguments.length-1]===V)+">"}
 function F(){var a=[];for(var i=0;i<arguments.length;i++)a.push(arguments[i]===undefined?"U":String(arguments[i]));return "<"+a.join(",")+">"}
 `
 
@@ -95,6 +96,9 @@ func implC10(line string) (out string) {
 	if f[0] == "xl" {
 		return implLiteral(vm, f)
 	}
+	if f[0] == "xr" {
+		return implReceiver(vm, f)
+	}
 	prefix := ""
 	if f[0] == "xc" { // a RegExp built from the RegExp R0 = new RegExp(P, FL)
 		mode := f[1]
@@ -135,10 +139,51 @@ func implC10(line string) (out string) {
 }
 
 // runSteps applies the steps to the global `re` on the subject `S`
-func runSteps(vm *otto.Otto, steps string) string {
+func runSteps(vm *otto.Otto, steps string) string { return runStepsOn(vm, steps, false) }
+
+// runStepsOn: with recv the subject is the global `R` (any value) and the String methods go through .call
+func runStepsOn(vm *otto.Otto, steps string, recv bool) string {
 	var parts []string
 	for _, st := range strings.Split(steps, ",") {
 		var src string
+		if recv {
+			sp := "String.prototype."
+			switch {
+			case st == "e":
+				src = "re.exec(R)"
+			case st == "t":
+				src = "re.test(R)"
+			case st == "m":
+				src = sp + "match.call(R, re)"
+			case st == "s":
+				src = sp + "search.call(R, re)"
+			case st == "rF":
+				src = sp + "replace.call(R, re, F)"
+			case st == "rT":
+				src = sp + "replace.call(R, re, T)"
+			case strings.HasPrefix(st, "rS:"):
+				vm.Set("RV", unhex(st[3:]))
+				src = sp + "replace.call(R, re, RV)"
+			case strings.HasPrefix(st, "rK:"):
+				vm.Set("RV", unhex(st[3:]))
+				src = sp + "replace.call(R, re, function(){ return RV })"
+			case st == "p:u":
+				src = sp + "split.call(R, re)"
+			case strings.HasPrefix(st, "p:"):
+				src = sp + "split.call(R, re, " + st[2:] + ")"
+			case strings.HasPrefix(st, "L:"):
+				src = "void (re.lastIndex = " + liJS(st[2:]) + ")"
+			default:
+				return "bad-step"
+			}
+			v, err := vm.Run("res(" + src + ")+'@'+li(re.lastIndex)")
+			if err != nil {
+				parts = append(parts, "throw")
+				continue
+			}
+			parts = append(parts, v.String())
+			continue
+		}
 		switch {
 		case st == "e":
 			src = "re.exec(S)"
@@ -150,6 +195,9 @@ func runSteps(vm *otto.Otto, steps string) string {
 			src = "S.search(re)"
 		case st == "rF":
 			src = "S.replace(re, F)"
+		case st == "rT":
+			vm.Set("V", unhex(""))
+			src = "(V = S, S.replace(re, T))"
 		case strings.HasPrefix(st, "rS:"):
 			vm.Set("R", unhex(st[3:]))
 			src = "S.replace(re, R)"
@@ -195,6 +243,39 @@ func implLiteral(vm *otto.Otto, f []string) string {
 		return "throw-loop"
 	}
 	return h1 + "|" + v.String() + "|" + h2 + "|loop:" + w.String()
+}
+
+// implReceiver: xr <recv> <pat> <flags> <steps>: the receiver is a String object, a number, a boolean or an
+// object whose toString counts its calls; V is the primitive string it converts to.
+func implReceiver(vm *otto.Otto, f []string) string {
+	kind, val := f[1][:1], unhex(f[1][2:])
+	vm.Set("V", val)
+	var src string
+	switch kind {
+	case "p":
+		src = "R = V"
+	case "S":
+		src = "R = new String(V)"
+	case "n":
+		src = "R = Number(V)"
+	case "b":
+		src = "R = (V === 'true')"
+	case "o":
+		src = "R = {toString: function(){ CNT++; return V }}"
+	default:
+		return "bad-recv"
+	}
+	vm.Set("P", unhex(f[2]))
+	vm.Set("FL", unhex(f[3]))
+	if _, err := vm.Run("var CNT = 0, R; " + src + "; var re = new RegExp(P, FL)"); err != nil {
+		return errTok(err)
+	}
+	h := runStepsOn(vm, f[4], true)
+	v, err := vm.Run("CNT")
+	if err != nil {
+		return "throw-cnt"
+	}
+	return h + "|conv:" + v.String()
 }
 
 // errTok names the class of a thrown error: throw:SyntaxError, throw:TypeError, …
@@ -461,6 +542,9 @@ func (g *gen) step() string {
 			// the result of a function is used verbatim: same `$` alphabet as the string replacements
 			return "rK:" + hexTok(g.pick(repls))
 		}
+		if g.r.Chance(30) {
+			return "rT"
+		}
 		return "rF"
 	case 9:
 		if g.r.Chance(50) {
@@ -557,6 +641,35 @@ func genC10(c *h.Ctx) {
 				st[j] = g.step()
 			}
 			c.Add("xc "+g.pick([]string{"n", "n", "u", "f", "e", "c"})+" "+hexTok(g.pattern())+" "+hexTok(g.flags())+" "+hexTok(g.subject())+" "+strings.Join(st, ","), "xc:random")
+		}
+	}
+	// the receiver dimension: String methods through .call on String objects, numbers, booleans and objects
+	// with a counting toString; replacers that report typeof / === of every argument
+	{
+		recvs := []string{"p:" + hexTok("abcab"), "S:" + hexTok("abcab"), "S:" + hexTok("a1b"), "n:" + hexTok("123"), "n:" + hexTok("-1.5"), "n:" + hexTok("1e+21"),
+			"b:" + hexTok("true"), "b:" + hexTok("false"), "o:" + hexTok("abcab"), "o:" + hexTok("121"), "o:" + hexTok("-")}
+		pats := []string{"b", "(a)(x)?", "1", "\\d", "[a-e]", "a|(b)", "", "(.)", "e", "x"}
+		ops := []string{"rT", "rF", "m", "s", "p:u", "p:2", "e", "t", "rS:" + hexTok("[$&]"), "rK:" + hexTok("$1"), "rT,rT", "m,rT,e", "L:i1,rT"}
+		for _, rv := range recvs {
+			for _, p := range pats {
+				for _, fl := range []string{"", "g", "i"} {
+					for _, st := range ops {
+						c.Add("xr "+rv+" "+hexTok(p)+" "+hexTok(fl)+" "+st, "xr:"+rv[:1])
+					}
+				}
+			}
+		}
+		for i := 0; i < c.N(3000, 100000); i++ {
+			st := make([]string, 1+g.r.Intn(3))
+			for j := range st {
+				if g.r.Chance(30) {
+					st[j] = "rT"
+				} else {
+					st[j] = g.step()
+				}
+			}
+			kind := g.pick([]string{"S", "S", "o", "o", "p"})
+			c.Add("xr "+kind+":"+hexTok(g.subject())+" "+hexTok(g.pattern())+" "+hexTok(g.flags())+" "+strings.Join(st, ","), "xr:random")
 		}
 	}
 	// the literal route: the same literal evaluated twice (function called twice, loop body) with the object
